@@ -22,6 +22,12 @@ PROPS = {
         'quick': 24000,
         'thorough': 600000,
     },
+    'C05': {
+        'level': 'fault_enumeration',
+        'strata': [('twin-solve-vs-loops', 'multi', 1.0)],
+        'quick': 20000,
+        'thorough': 500000,
+    },
 }
 
 COMPONENTS = {
